@@ -224,6 +224,7 @@ type World struct {
 	cutLeft   int
 	restarted bool
 	lastTimeout int // id of the node whose timer fired last (FairTimers)
+	weakCert    uint64 // bit h%64: some trusted node accepted a block at height h on a quorum with unverified early commits (known finding)
 	byz       *byzState
 
 	// observation log (only when logging is on: samples, C14)
@@ -412,7 +413,13 @@ func (w *World) onDecide(n *Node, b *Block) {
 	}
 	if old, ok := w.decided[b.index]; ok {
 		if old != b.Hash() {
-			w.violate("C01", "C01/two-blocks-one-height", n, fmt.Sprintf("height %d: block %s accepted by node %d, block %s accepted earlier", b.index, b.Hash(), n.id, old))
+			key := "C01/two-blocks-one-height"
+			if w.weakCert&(1<<(uint64(b.index)%64)) != 0 {
+				// one of the two decisions was taken on a quorum containing commits that were stored before the proposal
+				// was known and never verified (the known finding C02/unverified-commit/stored-without-header/no-amev)
+				key = "C01/two-blocks-one-height/unverified-early-commit-counted/no-amev"
+			}
+			w.violate("C01", key, n, fmt.Sprintf("height %d: block %s accepted by node %d, block %s accepted earlier", b.index, b.Hash(), n.id, old))
 		}
 	} else {
 		w.decided[b.index] = b.Hash()
@@ -1177,6 +1184,9 @@ func (w *World) key() [2]uint64 {
 	}
 	if w.sc.FairTimers {
 		put(uint64(100 + w.lastTimeout))
+	}
+	if w.weakCert != 0 {
+		put(w.weakCert)
 	}
 	if w.sc.E2 != nil {
 		put(uint64(w.skips))
